@@ -97,33 +97,62 @@ Proof.
   destruct r; cbn; exact Ha.
 Qed.
 
-(* what the destination writes back normalises to the same target (both directions of the round trip) *)
-Theorem normalize_unix_idem t : normalize_unix (denormalize Unix (normalize_unix t)) = normalize_unix t.
+(* well-formed UTF-8 is left alone by the lossy conversion *)
+Lemma lossy_fuel_valid fuel : forall s, utf8_valid_fuel fuel s = true -> length s < fuel -> lossy_fuel fuel s = s.
 Proof.
-  unfold normalize_unix at 2.
+  induction fuel as [|fuel IH]; intros s Hv Hl; [lia|].
+  destruct s as [|c0 r]; [reflexivity|]. cbn [utf8_valid_fuel lossy_fuel] in *. cbn [length] in Hl.
+  destruct (Nat.leb (b c0) 127); [rewrite IH by (auto; lia); reflexivity|].
+  destruct (Nat.leb 194 (b c0) && Nat.leb (b c0) 223).
+  { destruct r as [|c1 r1]; [discriminate|]. apply andb_true_iff in Hv as [H1 H2]. rewrite H1.
+    cbn [length] in Hl. rewrite IH by (auto; lia). reflexivity. }
+  destruct (Nat.leb 224 (b c0) && Nat.leb (b c0) 239).
+  { destruct r as [|c1 [|c2 r2]]; try discriminate.
+    apply andb_true_iff in Hv as [Hv H3]. apply andb_true_iff in Hv as [Hv H2]. apply andb_true_iff in Hv as [H0 H1].
+    unfold in_range. rewrite H0, H1, H2. cbn [andb length] in *. rewrite IH by (auto; lia). reflexivity. }
+  destruct (Nat.leb 240 (b c0) && Nat.leb (b c0) 244); [|discriminate].
+  destruct r as [|c1 [|c2 [|c3 r3]]]; try discriminate.
+  apply andb_true_iff in Hv as [Hv H4]. apply andb_true_iff in Hv as [Hv H3]. apply andb_true_iff in Hv as [Hv H2].
+  apply andb_true_iff in Hv as [H0 H1].
+  unfold in_range. rewrite H0, H1, H2, H3. cbn [andb length] in *. rewrite IH by (auto; lia). reflexivity.
+Qed.
+Theorem lossy_valid s : utf8_valid s = true -> lossy s = s.
+Proof. intros H. apply lossy_fuel_valid; [exact H|lia]. Qed.
+
+(* what the destination writes back normalises to the same target, for every text that the lossy
+   conversion leaves alone (in particular every well-formed UTF-8 text) *)
+Theorem normalize_unix_idem t : lossy t = t -> normalize_unix (denormalize Unix (normalize_unix t)) = normalize_unix t.
+Proof.
+  intros HL. unfold normalize_unix at 2.
   destruct (is_absolute_unix t) eqn:Ea.
-  - cbn [denormalize]. unfold lossy, normalize_unix. rewrite Ea. reflexivity.
+  - cbn [denormalize]. rewrite HL. unfold normalize_unix. rewrite Ea. reflexivity.
   - destruct (forallb utf8_valid (unix_components t) && negb (existsb (contains backslash) (unix_components t))) eqn:Ec.
     + cbn [denormalize]. unfold normalize_unix.
       rewrite join_not_absolute by apply unix_components_canon.
       rewrite unix_components_join by apply unix_components_canon. rewrite Ea, Ec. reflexivity.
-    + cbn [denormalize]. unfold lossy, normalize_unix. rewrite Ea, Ec. reflexivity.
+    + cbn [denormalize]. rewrite HL. unfold normalize_unix. rewrite Ea, Ec. reflexivity.
 Qed.
 
 (* relative link text reaches the destination with the same components; any other text verbatim *)
-Theorem link_text_preserved t : same_path_text t (denormalize Unix (normalize_unix t)) = true.
+Theorem link_text_preserved t : lossy t = t -> same_path_text t (denormalize Unix (normalize_unix t)) = true.
 Proof.
-  unfold normalize_unix, same_path_text.
-  destruct (is_absolute_unix t) eqn:Ea; [cbn [denormalize]; unfold lossy; rewrite Ea; cbn [orb]; apply str_eqb_refl|].
+  intros HL. unfold normalize_unix, same_path_text.
+  destruct (is_absolute_unix t) eqn:Ea; [cbn [denormalize]; rewrite HL, Ea; cbn [orb]; apply str_eqb_refl|].
   destruct (forallb utf8_valid (unix_components t) && negb (existsb (contains backslash) (unix_components t))) eqn:Ec.
   - cbn [denormalize]. rewrite join_not_absolute by apply unix_components_canon. cbn [orb].
     rewrite unix_components_join by apply unix_components_canon.
     destruct (list_eq_dec str_eq_dec (unix_components t) (unix_components t)); [reflexivity|congruence].
-  - cbn [denormalize]. unfold lossy. rewrite Ea. cbn [orb].
+  - cbn [denormalize]. rewrite HL, Ea. cbn [orb].
     destruct (list_eq_dec str_eq_dec (unix_components t) (unix_components t)); [reflexivity|congruence].
 Qed.
-Theorem raw_text_verbatim t s : normalize_unix t = TRaw s -> denormalize Unix (normalize_unix t) = t.
+Theorem raw_text_verbatim t s : lossy t = t -> normalize_unix t = TRaw s -> denormalize Unix (normalize_unix t) = t.
 Proof.
-  unfold normalize_unix. destruct (is_absolute_unix t); [intros _; reflexivity|].
-  destruct (_ && _); [discriminate|intros _; reflexivity].
+  intros HL. unfold normalize_unix. destruct (is_absolute_unix t); [intros _; cbn [denormalize]; exact HL|].
+  destruct (_ && _); [discriminate|intros _; cbn [denormalize]; exact HL].
 Qed.
+
+(* F7: ill-formed text does NOT survive - the replacement character turns a raw text into a
+   normalisable one, so the link looks different on every later run *)
+Theorem link_text_roundtrip_refuted :
+  exists t, normalize_unix (denormalize Unix (normalize_unix t)) <> normalize_unix t.
+Proof. exists [ascii_of_nat 116; ascii_of_nat 255; ascii_of_nat 120]. vm_compute. discriminate. Qed.
